@@ -16,8 +16,11 @@ Worlds ==
                  T(<<"r", "a", "l", "1">>, "dyn", <<61, 90>>, <<61, 62>>, <<>>) >>) >>) >>
     : bt \in {"dyn"}, xt \in Types \ {"none"}, lt \in {"dyn", "none"}, yt \in {"str", "dyn"} }
 Addrs == { <<"r", "a">>, <<"r", "a", "x">>, <<"r", "a", "l">>, <<"r", "a", "l", "0">>, <<"r", "a", "l", "0", "y">>, <<"r", "a", "l", "1">>, <<"r", "b">> }
-Origins == { [addr |-> a, rng |-> <<200 + i, 205 + i>>, cons |-> c] : a \in Addrs, i \in {0}, c \in {{}, {"str"}, {"dyn"}} }
-Init == ts \in Worlds /\ os \in { s \in SUBSET Origins : Cardinality(s) \in 1..2 }
+\* (all targets are in scope "s"; constrained origins ask for scope "s" or for another scope "q")
+Origins == { [addr |-> a, rng |-> <<200 + i, 205 + i>>, cons |-> c, scope |-> "s"] : a \in Addrs, i \in {0}, c \in {{}, {"str"}, {"dyn"}} }
+           \cup { [addr |-> a, rng |-> <<210, 215>>, cons |-> c, scope |-> "q"] : a \in Addrs, c \in {{"str"}, {"dyn"}} }
+\* (built directly: SUBSET Origins has 2^35 elements)
+Init == ts \in Worlds /\ os \in { {a, b} : a, b \in Origins }
 Next == UNCHANGED vars
 Spec == Init /\ [][Next]_vars
 ImplIsSpecInv == ImplIsSpec(ts, os)
